@@ -179,8 +179,10 @@ func (m *Morass) Push(e LessInterface) error {
 	}
 
 	if len(m.chunk) == m.chunkSize {
+		verifStep("push.send", 0)
 		m.writable <- m.chunk
 		go m.write()
+		verifStep("push.recv", 0)
 		m.chunk = <-m.pool
 		if err := m.err(); err != nil {
 			return err
@@ -198,14 +200,21 @@ func (m *Morass) Push(e LessInterface) error {
 }
 
 func (m *Morass) write() {
+	defer verifStep("write.done", 0)
+	verifStep("write.recv", 0)
 	writing := <-m.writable
 	defer func() {
+		verifStep("write.return", 0)
 		m.pool <- writing[:0]
 	}()
 
 	sort.Sort(writing)
 
 	tf, err := ioutil.TempFile(m.dir, m.prefix)
+	if herr := verifStep("write.tempfile", 0); herr != nil && err == nil {
+		verifDiscard(tf)
+		err = herr
+	}
 	if err != nil {
 		m.setErr(err)
 		return
@@ -215,17 +224,20 @@ func (m *Morass) write() {
 	dec := gob.NewDecoder(tf)
 	f := &file{head: nil, file: tf, encoder: enc, decoder: dec}
 
+	verifStep("write.register", 0)
 	m.filesLock.Lock()
 	m.files = append(m.files, f)
 	m.filesLock.Unlock()
 
 	for _, e := range writing {
+		enc = verifEncoder("write.encode", 0, enc)
 		if err := enc.Encode(&e); err != nil {
 			m.setErr(err)
 			return
 		}
 	}
 
+	verifStep("write.sync", 0)
 	m.setErr(tf.Sync())
 }
 
@@ -261,6 +273,7 @@ func (m *Morass) Finalise() error {
 		} else {
 			m.fast = false
 			if len(m.chunk) > 0 {
+				verifStep("finalise.write", 0)
 				m.writable <- m.chunk
 				m.chunk = nil
 				m.write()
@@ -276,10 +289,15 @@ func (m *Morass) Finalise() error {
 
 	if !m.fast {
 		for _, f := range m.files {
+			herr := verifStep("finalise.seek", 0)
 			_, err := f.file.Seek(0, 0)
+			if herr != nil {
+				err = herr
+			}
 			if err != nil {
 				return err
 			}
+			f.decoder = verifDecoder("finalise.decode", 0, f.decoder)
 			err = f.decoder.Decode(&f.head)
 			if err != nil && err != io.EOF {
 				return err
@@ -296,11 +314,19 @@ func (m *Morass) Finalise() error {
 func (m *Morass) Clear() error {
 	var err error
 	for _, f := range m.files {
+		herr := verifStep("clear.close", 0)
 		err = f.file.Close()
+		if herr != nil {
+			err = herr
+		}
 		if err != nil {
 			return err
 		}
+		herr = verifStep("clear.remove", 0)
 		err = os.Remove(f.file.Name())
+		if herr != nil {
+			err = herr
+		}
 		if err != nil {
 			return err
 		}
@@ -357,6 +383,7 @@ func (m *Morass) Pull(e LessInterface) error {
 			low := heap.Pop(&m.files).(*file)
 			e = low.head
 			m.pos++
+			low.decoder = verifDecoder("pull.decode", 0, low.decoder)
 			switch err = low.decoder.Decode(&low.head); err {
 			case nil:
 				heap.Push(&m.files, low)
